@@ -140,7 +140,7 @@ inductive Instr
   | jfalse (d : Int) | jtrue (d : Int) | jtrueP (d : Int)
   | iterStartRange | iterStartEnum | iterStartStrSet | iterStartTextSet
   | iterNext | iterCondition | iterEnd
-deriving Repr
+deriving Repr, BEq
 
 inductive Iter
   | range (next last : Int)
